@@ -9,3 +9,9 @@ package bootstrapping
 //@   shared Parameters EvaluationKeys xPow2N1 xPow2N2 xPow2InvN1 xPow2InvN2 Mod1Parameters S2CDFTMatrix C2SDFTMatrix SkDebug
 //@   copied Evaluator
 //@   fresh DFTEvaluator Mod1Evaluator DomainSwitcher
+
+// ==== property C18, last sentence: keys protected only by the ephemeral sparse secret live at Q[:1], P[:1] ====
+//@ afunc Parameters.genEncapsulationEvaluationKeysNew
+//@   property C18
+//@   requires !sparsekey(skDense)
+//@   ensures true
